@@ -51,7 +51,9 @@ class SimClock(object):
         self.now = _dt.datetime(2024, 1, 1, 12, 0, 0)
         self.tick = _dt.timedelta(microseconds=137)
         self.readings = []        # (pid, value)   value = local time
-        self.utcoffset = _dt.timedelta(0)
+        self.utcoffset = _dt.timedelta(0)     # offset in effect NOW (standard offset + 1 h while DST is on)
+        self.has_dst = False                  # the zone has DST rules at all (time.daylight)
+        self.dst_on = False                   # ... and DST is in effect now (tm_isdst)
         self.nonlocal_reads = 0
 
     def read(self):
@@ -101,6 +103,120 @@ class _DatetimeShim(object, metaclass=_DatetimeShimMeta):
         CLOCK.nonlocal_reads += 1
         return CLOCK.read() - CLOCK.utcoffset
 
+    @staticmethod
+    def fromtimestamp(ts, tz=None):
+        utc = _EPOCH + _dt.timedelta(seconds=ts)
+        if tz is None:
+            return utc + CLOCK.utcoffset
+        return utc.replace(tzinfo=_dt.timezone.utc).astimezone(tz)
+
+
+_EPOCH = _dt.datetime(1970, 1, 1)
+
+
+class _DateShimMeta(type):
+    def __getattr__(cls, name):
+        return getattr(_dt.date, name)
+
+    def __call__(cls, *a, **k):
+        return _dt.date(*a, **k)
+
+    def __instancecheck__(cls, inst):
+        return isinstance(inst, _dt.date)
+
+
+class _DateShim(object, metaclass=_DateShimMeta):
+    @staticmethod
+    def today():
+        return CLOCK.read().date()
+
+    @staticmethod
+    def fromtimestamp(ts):
+        return (_EPOCH + _dt.timedelta(seconds=ts) + CLOCK.utcoffset).date()
+
+
+# ---- the time module: same clock, same zone ---------------------------------
+
+import time as _time       # noqa: E402
+
+_T = {'time': _time.time, 'time_ns': _time.time_ns, 'localtime': _time.localtime, 'gmtime': _time.gmtime,
+      'strftime': _time.strftime, 'mktime': _time.mktime, 'ctime': _time.ctime, 'asctime': _time.asctime,
+      'timezone': _time.timezone, 'altzone': _time.altzone, 'daylight': _time.daylight, 'tzname': _time.tzname}
+
+
+def _sim_epoch():
+    return (CLOCK.read() - CLOCK.utcoffset - _EPOCH).total_seconds()
+
+
+def _struct(d, isdst, gmtoff, zone):
+    tt = d.timetuple()
+    return _time.struct_time((tt.tm_year, tt.tm_mon, tt.tm_mday, tt.tm_hour, tt.tm_min, tt.tm_sec, tt.tm_wday, tt.tm_yday, isdst),
+                             {'tm_zone': zone, 'tm_gmtoff': gmtoff})
+
+
+def w_time():
+    return _sim_epoch() if K.active else _T['time']()
+
+
+def w_time_ns():
+    return int(_sim_epoch() * 1e9) if K.active else _T['time_ns']()
+
+
+def w_localtime(secs=None):
+    if not K.active:
+        return _T['localtime']() if secs is None else _T['localtime'](secs)
+    if secs is None:
+        secs = _sim_epoch()
+    d = _EPOCH + _dt.timedelta(seconds=int(secs)) + CLOCK.utcoffset
+    return _struct(d, 1 if CLOCK.dst_on else 0, int(CLOCK.utcoffset.total_seconds()), 'SDT' if CLOCK.dst_on else 'SST')
+
+
+def w_gmtime(secs=None):
+    if not K.active:
+        return _T['gmtime']() if secs is None else _T['gmtime'](secs)
+    if secs is None:
+        secs = _sim_epoch()
+    return _struct(_EPOCH + _dt.timedelta(seconds=int(secs)), 0, 0, 'UTC')
+
+
+def w_mktime(t):
+    if not K.active:
+        return _T['mktime'](t)
+    d = _dt.datetime(*t[:6])
+    return (d - CLOCK.utcoffset - _EPOCH).total_seconds()
+
+
+def w_strftime(fmt, t=None):
+    if not K.active:
+        return _T['strftime'](fmt) if t is None else _T['strftime'](fmt, t)
+    return _T['strftime'](fmt, w_localtime() if t is None else t)
+
+
+def w_ctime(secs=None):
+    if not K.active:
+        return _T['ctime']() if secs is None else _T['ctime'](secs)
+    return _T['asctime'](w_localtime(secs))
+
+
+def w_asctime(t=None):
+    if not K.active:
+        return _T['asctime']() if t is None else _T['asctime'](t)
+    return _T['asctime'](w_localtime() if t is None else t)
+
+
+def apply_zone():
+    """time.timezone / altzone / daylight / tzname of the simulated machine (module attributes: set per case)"""
+    std = int(CLOCK.utcoffset.total_seconds()) - (3600 if CLOCK.dst_on else 0)
+    _time.timezone = -std
+    _time.altzone = -(std + 3600) if CLOCK.has_dst else -std
+    _time.daylight = 1 if CLOCK.has_dst else 0
+    _time.tzname = ('SST', 'SDT' if CLOCK.has_dst else 'SST')
+
+
+def restore_zone():
+    for k in ('timezone', 'altzone', 'daylight', 'tzname'):
+        setattr(_time, k, _T[k])
+
 
 class _ModuleShimMeta(type):
     def __getattr__(cls, name):
@@ -110,6 +226,7 @@ class _ModuleShimMeta(type):
 class _DatetimeModuleShim(object, metaclass=_ModuleShimMeta):
     """stands in for the ``datetime`` *module* in trashcli.put.clock"""
     datetime = _DatetimeShim
+    date = _DateShim
 
 
 class SimRandom(object):
@@ -160,6 +277,20 @@ def install_seams():
     vkernel.install()
     put_clock.datetime = _DatetimeModuleShim
     empty_main.datetime = _DatetimeShim
+    # ... and wherever else trashcli (now or after a change) holds the datetime module / class / date class
+    for name, mod in list(sys.modules.items()):
+        if mod is None or not (name == 'trashcli' or name.startswith('trashcli.')):
+            continue
+        for attr, val in list(vars(mod).items()):
+            if val is _dt:
+                setattr(mod, attr, _DatetimeModuleShim)
+            elif val is _dt.datetime:
+                setattr(mod, attr, _DatetimeShim)
+            elif val is _dt.date:
+                setattr(mod, attr, _DateShim)
+    for fname, fn in (('time', w_time), ('time_ns', w_time_ns), ('localtime', w_localtime), ('gmtime', w_gmtime),
+                      ('mktime', w_mktime), ('strftime', w_strftime), ('ctime', w_ctime), ('asctime', w_asctime)):
+        setattr(_time, fname, fn)
     put_main.random = _RandomShim
     psutil.disk_partitions = _fake_disk_partitions
     # make sure no stray handler writes to the real stderr
